@@ -21,6 +21,7 @@ import (
 	"github.com/pkg/errors"
 
 	"seata.apache.org/seata-go/pkg/datasource/sql/undo"
+	"seata.apache.org/seata-go/pkg/util/log"
 )
 
 // ATTx
@@ -55,11 +56,13 @@ func (tx *ATTx) Rollback() error {
 func (tx *ATTx) commitOnAT() error {
 	originTx := tx.tx
 	if err := originTx.register(originTx.tranCtx); err != nil {
+		tx.rollbackLocal()
 		return err
 	}
 
 	undoLogMgr, err := undo.GetUndoLogManager(originTx.tranCtx.DBType)
 	if err != nil {
+		tx.rollbackLocal()
 		if rerr := originTx.report(false); rerr != nil {
 			return errors.WithStack(rerr)
 		}
@@ -67,6 +70,7 @@ func (tx *ATTx) commitOnAT() error {
 	}
 
 	if err = undoLogMgr.FlushUndoLog(originTx.tranCtx, originTx.conn.targetConn); err != nil {
+		tx.rollbackLocal()
 		if rerr := originTx.report(false); rerr != nil {
 			return errors.WithStack(rerr)
 		}
@@ -82,4 +86,13 @@ func (tx *ATTx) commitOnAT() error {
 
 	originTx.report(true)
 	return nil
+}
+
+// rollbackLocal ends the local transaction when phase one failed before the local commit. The
+// caller's Commit returns an error, after which database/sql treats the transaction as finished and
+// hands the connection back to the pool, so nobody else can roll it back any more.
+func (tx *ATTx) rollbackLocal() {
+	if err := tx.tx.Rollback(); err != nil {
+		log.Errorf("rollback local transaction after failed phase one, xid %s, err: %v", tx.tx.tranCtx.XID, err)
+	}
 }
